@@ -1,12 +1,15 @@
 (* C08 — Packet codec: own output re-parses byte-exactly (consuming exactly its own length, leaving following data
    untouched) and re-serialises identically.  One generic theorem (dec_enc, by induction on fuel, for every format
    term, every value, every trailing data) + the fact that every packet type of Model/Packets.v is a self-delimiting
-   format.  The "foreign input normalises once" half is decided by the correspondence run on the implementation
-   (old-format headers, partial lengths, non-canonical MPIs); the model covers canonical new-format encodings. *)
+   format.  The "foreign input normalises once" half: theorem C08_foreign_normalises_once_partial below (every encoding the
+   tolerant decoder accepts that has complete, encodable multiprecision integers and no partial body lengths re-encodes to a
+   defined packet that is no longer, parses back to the same value and is a fixed point), the closed witnesses of what is
+   outside it (C08_foreign_normalises_once_refuted), and, for old-format headers, partial lengths and everything the model has
+   no format for, the correspondence run on the implementation. *)
 From Coq Require Import ZArith List Bool.
 Import ListNotations.
 Require Import PV.Lib.Bytes PV.Model.Wire PV.Model.Fmt PV.Model.Packets PV.Model.HashData PV.Model.SubArea PV.Proofs.Fmt_lemmas PV.Proofs.Packets_lemmas
-  PV.Proofs.SubArea_lemmas.
+  PV.Proofs.SubArea_lemmas PV.Model.FmtStrict PV.Proofs.Fmt_lemmas2.
 Open Scope Z_scope.
 
 Theorem C08_dec_enc : forall fuel f m v b r,
@@ -58,3 +61,55 @@ Print Assumptions C08_reserialising_refuted.
 Example C08_nonminimal_area_accepted : exists st rest,
   sa_parse [0; 3; 2; 4; 2;  0; 7; 255; 0; 0; 0; 2; 27; 3;  9; 9] = Some (st, rest) /\ rest = [9; 9] /\ sa_u st = [(27, false, [3])].
 Proof. exact parse_accepts_nonminimal. Qed.
+
+
+(* ---------- foreign input normalises once (Model/FmtStrict.v, Proofs/Fmt_lemmas2.v) ---------- *)
+(* dec_strict2 is the tolerant decoder `dec` with two more refusals: a multiprecision integer must be present in full and have a value
+   the encoder can write (bit length below 65536), and a body length is not a partial one.  What it accepts, `dec` accepts with the
+   same result (so the tie of `dec` to the implementation covers it) ... *)
+Theorem C08_strict_is_a_restriction_of_tolerant : forall f i x, dec_strict2_full f i = Some x -> dec_full f i = Some x.
+Proof. intros f i x H. apply dec_strict_full_dec_full, dec_strict2_full_dec_strict_full, H. Qed.
+Print Assumptions C08_strict_is_a_restriction_of_tolerant.
+
+(* ... everything the encoder writes is accepted by it (so the theorem below is about a superset of PGPy's own output) ... *)
+Theorem C08_strict_accepts_own_output : forall f v b r, In f all_formats -> enc f v = Some b -> dec_strict2_full f (b ++ r) = Some (v, r).
+Proof. exact dec_strict2_full_enc. Qed.
+Print Assumptions C08_strict_accepts_own_output.
+
+(* ... and whatever other encoding of a packet it accepts (five-octet or non-minimal lengths, integers whose bit count covers leading
+   zero bits or octets, any value of any field) re-serialises to a DEFINED packet, not longer than what was read, that parses back to
+   the same field values with the following data untouched and is a fixed point of a further parse / serialise pass.
+   `_partial`: partial body lengths and integers with missing octets are outside the hypothesis (next theorem). *)
+Theorem C08_foreign_normalises_once_partial : forall f i v r,
+  In f all_formats -> wf_bytes i -> dec_strict2_full f i = Some (v, r) ->
+  exists b, enc f v = Some b /\ (length b + length r <= length i)%nat /\
+    dec_full f (b ++ r) = Some (v, r) /\
+    (exists v', dec_full f (b ++ r) = Some (v', r) /\ enc f v' = Some b).
+Proof. exact foreign_normalises_once_partial. Qed.
+Print Assumptions C08_foreign_normalises_once_partial.
+
+(* without the two refusals the statement is false of the model: (1) a user id packet written with partial lengths re-encodes LONGER
+   (8388 -> 8390 octets: harmless, C08 does not ask for shortness); (2) inside a two-octet-counted region the longer re-encoding can
+   exceed the count (a model artefact: Model/Packets.v reads subpacket length octets 224..254 with the packet rule, the code and
+   Model/Wire.v sub_len read them as two-octet lengths); (3) an integer declaring 65529..65535 bits whose top value bit is set has
+   bit length 65536, which no two-octet bit count can express - such an integer is not well-formed (RFC 4880 3.2: the value does not
+   fit the declared count), the implementation accepts it and cannot write it back (OverflowError), the model encoder says None. *)
+Theorem C08_foreign_normalises_once_refuted :
+  (exists f i v r b, In f all_formats /\ wf_bytes i /\ dec_strict_full f i = Some (v, r) /\
+     enc f v = Some b /\ (length i < length b + length r)%nat) /\
+  (exists f i v r, In f all_formats /\ wf_bytes i /\ dec_strict_full f i = Some (v, r) /\ enc f v = None) /\
+  (exists i v r, wf_bytes i /\ dec_strict_full f_pkesk_rsa i = Some (v, r) /\ enc f_pkesk_rsa v = None /\
+     new_len_np (skipn 1 i) = new_len (skipn 1 i)).
+Proof. exact foreign_normalises_once_refuted. Qed.
+Print Assumptions C08_foreign_normalises_once_refuted.
+
+(* premises are satisfiable by an encoding that is NOT PGPy's own: five-octet length, modulus 200 declared with 16 bits,
+   exponent 65537 declared with 24 bits; the re-encoding is 5 octets shorter *)
+Example C08_foreign_example :
+  In (f_pubkey 6 pub_rsa) all_formats /\ wf_bytes ex_in /\
+  dec_strict2_full (f_pubkey 6 pub_rsa) ex_in = Some (ex_val, [1; 2; 3]) /\
+  dec_strict_full (f_pubkey 6 pub_rsa) ex_in = Some (ex_val, [1; 2; 3]) /\
+  enc (f_pubkey 6 pub_rsa) ex_val = Some ex_out /\
+  (length ex_out + length [1; 2; 3] < length ex_in)%nat /\
+  dec_full (f_pubkey 6 pub_rsa) (ex_out ++ [1; 2; 3]) = Some (ex_val, [1; 2; 3]).
+Proof. exact foreign_example. Qed.
